@@ -346,6 +346,12 @@ impl Database {
 
         if dirty_regions.is_empty() {
             debug!("{}: flush (no dirty)", self);
+            // Freed extents become reusable (and punchable) below: the metadata writes
+            // that released them must be durable first, exactly as on the main path.
+            if self.layout().has_pending_holes() {
+                self.regions().flush()?;
+                self.regions().sync_data()?;
+            }
             self.layout_mut().promote_pending_holes(self.name());
             return Ok(0);
         }
